@@ -18,6 +18,9 @@ type SessInitStage struct {
 	closeChan <-chan struct{}
 }
 
+// maxSegmentMtu is the largest size of an outgoing segment, independent of the peer's Segment MRU.
+const maxSegmentMtu uint64 = 16 * 1024 * 1024
+
 // Handle this Stage's action based on the previous Stage's State and the StageHandler's close channel.
 func (ci *SessInitStage) Handle(state *State, closeChan <-chan struct{}) {
 	ci.state = state
@@ -45,10 +48,22 @@ func (ci *SessInitStage) Handle(state *State, closeChan <-chan struct{}) {
 	}
 
 	if err == nil {
-		ci.state.Keepalive = uint16(math.Min(float64(ci.state.Configuration.Keepalive), float64(ciIn.KeepaliveInterval)))
-		ci.state.SegmentMtu = ciIn.SegmentMru
-		ci.state.TransferMtu = ciIn.TransferMru
-		ci.state.PeerNodeId, err = bpv7.NewEndpointID(ciIn.NodeId)
+		if ciIn.SegmentMru == 0 {
+			// The sender would create empty segments for ever.
+			err = fmt.Errorf("peer's SESS_INIT announces a Segment MRU of zero")
+		} else {
+			// Each outgoing segment is buffered as a whole. Limit the buffer's size regardless of what the
+			// peer is willing to receive.
+			segmentMtu := ciIn.SegmentMru
+			if segmentMtu > maxSegmentMtu {
+				segmentMtu = maxSegmentMtu
+			}
+
+			ci.state.Keepalive = uint16(math.Min(float64(ci.state.Configuration.Keepalive), float64(ciIn.KeepaliveInterval)))
+			ci.state.SegmentMtu = segmentMtu
+			ci.state.TransferMtu = ciIn.TransferMru
+			ci.state.PeerNodeId, err = bpv7.NewEndpointID(ciIn.NodeId)
+		}
 	}
 
 	ci.state.StageError = err
